@@ -50,12 +50,13 @@ func vhC06Name(t string, form int) string {
 	return t
 }
 
-//verif:harness prop=C06 bounds="statement texts from 22 templates (single table, comma join, JOIN, subquery in FROM / WHERE / SET, INSERT / REPLACE with and without column list, INSERT ... SELECT, multi-table UPDATE, DELETE, comment or line break next to the name) over the tables sh (sharded), lk (linked), gl (global), un (unsharded); the sharded-side name in five spellings (plain, upper case, back-quoted, db-qualified, both); session with and without a current database; the oracle is the proxy's own full analysis (real parser + plan.Checker)"
+//verif:harness prop=C06 bounds="statement texts from 26 templates (single table, comma join, JOIN, subquery in FROM / WHERE / SET, INSERT / REPLACE with and without column list, INSERT ... SELECT, multi-table UPDATE, DELETE, comment or line break next to the name, the name occurring first inside a longer identifier) over the tables sh (sharded), lk (linked), gl (global), un (unsharded); the sharded-side name in five spellings (plain, upper case, back-quoted, db-qualified, both); session with and without a current database; the oracle is the proxy's own full analysis (real parser + plan.Checker)"
 func Harness_C06_FastPath() {
 	rt := vhC06Router()
 	ns := &Namespace{name: "ns", router: rt, defaultPhyDBs: map[string]string{}}
 	se := &SessionExecutor{user: "u", namespace: "ns", contextNamespace: ns}
-	x := vhC06Name([]string{"sh", "lk", "gl", "un"}[vs.Choice("table", 4)], vs.Choice("spelling", 5))
+	raw := []string{"sh", "lk", "gl", "un"}[vs.Choice("table", 4)]
+	x := vhC06Name(raw, vs.Choice("spelling", 5))
 	templates := []string{
 		"select * from X where id = 1",
 		"select * from un, X where un.id = X.id",
@@ -79,9 +80,14 @@ func Harness_C06_FastPath() {
 		"update un, X set un.a = 1 where un.id = X.id",
 		"update un set a = (select max(a) from X)",
 		"update un join X on un.id = X.id set un.a = 1",
+		// the table's name first occurs inside a longer identifier
+		"select Y_id from X where id = 1",
+		"select * from Y_bak, X where Y_bak.id = 1",
+		"select Y_cnt from un where id in (select id from X)",
+		"update Y_bak set a = (select max(a) from X)",
 	}
 	ti := vs.Choice("template", len(templates))
-	sql := strings.Replace(templates[ti], "X", x, -1)
+	sql := strings.Replace(strings.Replace(templates[ti], "X", x, -1), "Y", raw, -1)
 	db := []string{"db", ""}[vs.Choice("noCurrentDB", 2)]
 	vs.TagI("template", int64(ti))
 
